@@ -31,8 +31,36 @@ fn writer(tier: &str) -> Vec<String> {
     }
     v.push(format!("sock-buf:sink=unix:cap=4:faults=1:depth={}", if thorough { 7 } else { 5 }));
     v.push(format!("sock-buf:sink=unix:cap=8:faults=1:depth={}", if thorough { 6 } else { 5 }));
+    v.push(format!("sock-buf:sink=unix:cap=4:faults=1:fault=eagain:depth={}", if thorough { 6 } else { 5 }));
+    for sink in ["udp", "unix"] {
+        for cap in ["0", "1"] {
+            v.push(format!("sock-buf:sink={}:cap={}:depth=3", sink, cap));
+        }
+    }
     for (cap, q) in [(4, 1), (3, 2), (8, 1)] {
         v.push(format!("spyq:cap={}:q={}:depth={}", cap, q, if thorough { 6 } else { 5 }));
+    }
+    // realistic capacities with an explicit length alphabet (every length cannot be enumerated there)
+    for (cap, lens) in [
+        (512usize, "0,1,255,256,509,510,511,512,513"),
+        (1432, "1,715,716,1430,1431,1432,1433"),
+        (8192, "1,4095,4096,8190,8191,8192,8193"),
+        (16384, "1,4000,8191,8192,8193,12000,16382,16383,16384,16385"),
+        (65536, "1,8192,30000,32767,65534,65535,65536"),
+    ] {
+        v.push(format!("wbfs:cap={}:end=n:F=0:lens={}:budget=300000", cap, lens));
+        v.push(format!("wtree:cap={}:end=n:depth={}:Fop=0:Fh=0:lens={}", cap, if thorough { 5 } else { 4 }, lens));
+        v.push(format!("wtree:cap={}:end=n:depth=3:Fop=1:Fh=2:lens={}", cap, lens));
+    }
+    // accessors must not write: stats() between emits on the socket sinks
+    for sink in ["udp", "unix"] {
+        v.push(format!("sock-buf:sink={}:cap=8:stats=1:depth={}", sink, if thorough { 4 } else { 3 }));
+    }
+    // flush racing emit / flush on one shared sink (all interleavings)
+    for prog in ["EF.EE", "EE.F.E", "E.F", "EF.EF"] {
+        for sink in ["spy", "unix", "udp"] {
+            v.push(format!("mutex:sink={}:via=sink:cap=6:prog={}", sink, prog));
+        }
     }
     // flush through the client and through a queuing wrapper (C06)
     for cap in [9, 16] {
@@ -43,6 +71,8 @@ fn writer(tier: &str) -> Vec<String> {
             v.push(format!("qflush:cap={}:prog={}:P={}", cap, prog, if thorough { 4 } else { 3 }));
         }
         v.push(format!("qflush:cap=16:qcap=1:prog={}:P=3", prog));
+        v.push(format!("qflush:cap=16:h=1:prog={}:P=3", prog));
+        v.push(format!("qflush:cap=16:h=1:qcap=2:prog={}:P=3", prog));
     }
     // unmerged tree: split on the first operation for parallelism
     let tree: Vec<(usize, usize)> = if thorough {
@@ -184,6 +214,12 @@ fn c08(tier: &str) -> Vec<String> {
             }
         }
     }
+    // the empty string is a legal metric for a sink
+    for cap in ["u", "1"] {
+        for prog in ["Z0E0W", "E0Z0E0W", "Z0Z0", "C0Z1D1E0W", "Z0D0"] {
+            v.push(format!("queue:cap={}:prog={}", cap, prog));
+        }
+    }
     // many queued metrics, all handles dropped at once, panics in between
     for cap in ["u", "4"] {
         for sc in ["p", "op", "pop", "ppp", "oop"] {
@@ -309,6 +345,8 @@ fn c15(tier: &str) -> Vec<String> {
             ] {
                 v.push(format!("queue:cap={}:script={}:prog={}:prod={}:sampler={}:P={}", cap, sc, prog, prods, samples, pb));
             }
+            // counters read while the wrapped sink is still busy with the first metric
+            v.push(format!("queue:cap={}:script=b{}:prog=E0E0QROQR", cap, sc));
             // single threaded histories with refused emits, counters read at every quiescent point
             v.push(format!("queue:cap={}:script={}:prog=E0E0E0QRE0QRE0E0QR", cap, sc));
             v.push(format!("queue:cap={}:script={}:prog=RE0RE0RQR", cap, sc));
@@ -370,6 +408,11 @@ fn c03(tier: &str) -> Vec<String> {
     for i in 0..30 {
         v.push(format!("calls:part=seq:tier={}:chunk={}:of=30", tier, i));
     }
+    // two or three threads on one client, failures overlapping inside the error handler
+    for prog in ["r.r", "r.i", "rr.r", "ri.ir", "r.o", "t.r", "r.r.r", "rt.tr"] {
+        let p = if prog.len() >= 5 { ":P=3" } else { "" };
+        v.push(format!("client2:prog={}{}", prog, p));
+    }
     v
 }
 
@@ -410,6 +453,18 @@ fn c13(tier: &str) -> Vec<String> {
     }
     v.push(format!("sock-buf:sink=unix:cap=4:faults=1:depth={}", if th { 7 } else { 6 }));
     v.push(format!("sock-buf:sink=unix:cap=8:faults=1:depth={}", if th { 6 } else { 5 }));
+    v.push(format!("sock-buf:sink=unix:cap=4:faults=1:fault=eagain:depth={}", if th { 6 } else { 5 }));
+    for sink in ["udp", "unix"] {
+        for cap in ["0", "1", "2"] {
+            v.push(format!("sock-buf:sink={}:cap={}:depth={}", sink, cap, if th { 4 } else { 3 }));
+        }
+    }
+    // flush racing emit on the real socket sinks (all interleavings)
+    for prog in ["EF.EE", "EE.F.E", "E.F", "EF.EF"] {
+        for sink in ["unix", "udp"] {
+            v.push(format!("mutex:sink={}:via=sink:cap=6:prog={}", sink, prog));
+        }
+    }
     v
 }
 
@@ -421,6 +476,9 @@ fn c14(tier: &str) -> Vec<String> {
     }
     v.push("sock-buf:sink=udp:cap=16:depth=3".into());
     v.push("sock-buf:sink=unix:cap=4:faults=1:depth=5".into());
+    for prog in ["ooo", "oeo", "oooo", "eoo"] {
+        v.push(format!("stats:mode=queue:prog={}", prog));
+    }
     let progs: Vec<&str> = if th { vec!["oo.oo", "oe.eo", "o.o.o", "oe.o.e", "ooo.oo", "oe.oe.oe", "oo.oo.o"] } else { vec!["oo.oo", "oe.eo", "o.o.o", "oe.o.e"] };
     for prog in progs {
         for mode in ["raw", "unix", "udp"] {
@@ -434,7 +492,7 @@ fn c14(tier: &str) -> Vec<String> {
 }
 
 fn c17(_tier: &str) -> Vec<String> {
-    ["A", "B", "C", "D", "E", "F", "U"].iter().map(|c| format!("probe:cfg={}", c)).collect()
+    ["A", "B", "C", "D", "E", "F", "G", "U"].iter().map(|c| format!("probe:cfg={}", c)).collect()
 }
 
 fn c20(tier: &str) -> Vec<String> {
